@@ -4,7 +4,8 @@ import CoclsModel.Signal
 
 The driver adds only executor bookkeeping on top of the model: which released listeners sit in which *held*
 suspend point (`emit … hold` / `flush`), which are queued in the emitting coroutine's ready queue (`burst`), and
-the table of handle slots.  Every state change goes through `Cocls.Signal.step`. -/
+the table of handle slots.  Every state change goes through `Cocls.Signal.step` (collector calls and handle destruction through the loop forms
+`stepEmitLoop` / `stepDropLoop`). -/
 open Cocls Cocls.Proto Cocls.Signal
 
 structure D where
@@ -24,7 +25,15 @@ def events (s0 s1 : State) : List String :=
     ((s1.got l).drop (if l < s0.next then (s0.got l).length else 0)).map fun o =>
       (if s1.isCb l then "C" else "L") ++ toString l ++ ":" ++ outStr o
 
-def st (s : State) (op : Op) : State := (step s op).1
+/-- the driver executes the walks awaiter by awaiter, as the code does (`stepEmitLoop` / `stepDropLoop`); they equal the
+closed forms the proofs are about on every reachable state (`c15_model_is_the_loop`) -/
+def stepX (s : State) (op : Op) : State × Res :=
+  match op with
+  | Op.emit r v => stepEmitLoop s r v
+  | Op.dropHandle => stepDropLoop s
+  | _ => step s op
+
+def st (s : State) (op : Op) : State := (stepX s op).1
 
 def resumeAll (s : State) (ids : List Nat) : State := ids.foldl (fun s l => st s (Op.resume l)) s
 
@@ -63,11 +72,11 @@ def doLine (d : D) (ws : List String) : D × String :=
     -- hook_up(): create the state, subscribe, then hand out the collector (handle 0) = `listen` on the initial state
     match ws with
     | ["hlisten", sc] =>
-        let (s1, r) := step s (Op.listen (parseScript sc))
+        let (s1, r) := stepX s (Op.listen (parseScript sc))
         ({ d with s := s1, hook := false }, match r with | Res.id l => s!"hlisten L{l}" | _ => "bad-op")
     | ["hlisten0", sc] =>
         -- the registration function drops the collector: last handle gone, the destructor's suspend point is flushed
-        let (s1, r) := step s (Op.listen (parseScript sc))
+        let (s1, r) := stepX s (Op.listen (parseScript sc))
         let s2 := st s1 Op.dropHandle
         ({ d with s := resumeAll s2 (newRel s1 s2), hook := false, hs := [false] },
           match r with | Res.id l => s!"hlisten0 L{l}" | _ => "bad-op")
@@ -75,20 +84,20 @@ def doLine (d : D) (ws : List String) : D × String :=
   else
   match ws with
   | ["listen", sc] =>
-      let (s1, r) := step s (Op.listen (parseScript sc))
+      let (s1, r) := stepX s (Op.listen (parseScript sc))
       ({ d with s := s1 }, match r with | Res.id l => s!"listen L{l}" | _ => "bad-op")
   | ["listen0", sc] =>
-      let (s1, r) := step s (Op.listen0 (parseScript sc))
+      let (s1, r) := stepX s (Op.listen0 (parseScript sc))
       ({ d with s := s1 }, match r with | Res.id l => s!"listen0 L{l}" | _ => "bad-op")
   | "tlisten" :: scs =>
       if scs.isEmpty then (d, "bad-op") else
       let s1 := scs.foldl (fun s sc => st s (Op.listen (parseScript sc))) s
       ({ d with s := s1 }, s!"tlisten L{s.next}..L{s1.next - 1}")
   | ["connect", n] =>
-      let (s1, r) := step s (Op.connect (n.toNat?.getD 0))
+      let (s1, r) := stepX s (Op.connect (n.toNat?.getD 0))
       ({ d with s := s1 }, match r with | Res.id l => s!"connect C{l}" | _ => "bad-op")
   | "emit" :: fl :: v :: rest =>
-      let (s1, r) := step s (Op.emit (fl == "lv") (v.toNat?.getD 0))
+      let (s1, r) := stepX s (Op.emit (fl == "lv") (v.toNat?.getD 0))
       match r with
       | Res.num n =>
           if rest == ["hold"] then ({ d with s := s1, held := d.held ++ [newRel s s1] }, s!"emit rel={n}")
@@ -107,7 +116,7 @@ def doLine (d : D) (ws : List String) : D × String :=
       ({ d with s := resumeAll s1 q, hs := hs }, "burst rel=" ++ joinWith "," txt)
   | [w] =>
       if w == "newcol" || w == "newsig" then
-        let (s1, r) := step s Op.addHandle
+        let (s1, r) := stepX s Op.addHandle
         match r with
         | Res.unit => ({ d with s := s1, hs := d.hs ++ [true] }, s!"handle H{d.hs.length}")
         | _ => (d, "bad-op")
@@ -116,14 +125,14 @@ def doLine (d : D) (ws : List String) : D × String :=
       match k.toNat? with
       | some k =>
           if d.hs.getD k false then
-            let (s1, r) := step s Op.dropHandle
+            let (s1, r) := stepX s Op.dropHandle
             let s2 := resumeAll s1 (newRel s s1)     -- `~state` discards its suspend point: normal thread => flushed now
             ({ d with s := s2, hs := d.hs.set k false },
               match r with | Res.last b => "drop last=" ++ boolStr b | _ => "bad-op")
           else (d, "bad-op")
       | none => (d, "bad-op")
   | ["wake", l] =>
-      let (s1, r) := step s (Op.wake (l.toNat?.getD 0))
+      let (s1, r) := stepX s (Op.wake (l.toNat?.getD 0))
       match r with
       | Res.unit => ({ d with s := s1 }, "wake")
       | _ => (d, "bad-op")
